@@ -130,7 +130,7 @@ def gen_contents(rng, blksize, n, big=False):
 PROFILES = {
     # weights of operation kinds per property profile
     "C01": dict(store=8, store_nopid=1, retrieve=5, delete=2, tag=1, div=1, hexdigest=1, smeta=1, dmeta=1, restart=1),
-    "C02": dict(store=8, store_nopid=1, hexdigest=6, delete=2, restart=1, retrieve=1, raw_bad=2),
+    "C02": dict(store=8, store_nopid=1, hexdigest=6, delete=2, restart=1, retrieve=1, raw_bad=2, smeta=1),
     "C03": dict(store=7, tag=6, delete=3, div=1, store_nopid=1, retrieve=1, raw_bad=1),
     "C04": dict(store=7, delete=5, div=3, tag=2, smeta=1, dmeta=1, store_nopid=1, retrieve=2),
     "C05": dict(store=6, store_nopid=2, tag=5, delete=5, div=2, smeta=1, dmeta=1, retrieve=1, hexdigest=1, restart=1, raw_bad=2),
@@ -260,6 +260,8 @@ def gen_seq_program(seed, prof, tier="quick", mp=None, length=None):
     contents = gen_contents(rng, knobs["blksize"], ncont, big=(prof == "C01" and rng.random() < 0.3) or
                             (prof in ("C02", "C06", "C19") and rng.random() < 0.1))
     mcontents = gen_contents(rng, knobs["blksize"], 3)
+    if prof in ("C02", "C11", "C16") and rng.random() < (0.6 if prof == "C02" else 0.15):
+        mcontents[0] = [300, rng.randrange(1, 50), "sysmeta:" + rng.choice(["md5", "sha1", "sha256", "sha512", "sha224"])]
     weights = PROFILES[prof]
     if length is None:
         length = rng.randint(8, 40) if tier == "quick" else rng.randint(10, 120)
@@ -291,8 +293,10 @@ def gen_seq_program(seed, prof, tier="quick", mp=None, length=None):
         elif k == "retrieve":
             ops.append({"op": "retrieve", "pid": rng.randrange(npids)})
         elif k == "hexdigest":
-            ops.append({"op": "hexdigest", "pid": rng.randrange(npids),
-                        "algo": spell(rng, rng.choice(M.ALL_ALGOS))})
+            algo = rng.choice(M.ALL_ALGOS)
+            if len(mcontents[0]) > 2 and str(mcontents[0][2]).startswith("sysmeta:") and rng.random() < 0.6:
+                algo = mcontents[0][2].split(":", 1)[1]   # the algorithm a stored system-metadata document names
+            ops.append({"op": "hexdigest", "pid": rng.randrange(npids), "algo": spell(rng, algo)})
         elif k == "smeta":
             op = {"op": "smeta", "pid": rng.randrange(npids), "m": rng.randrange(len(mcontents)),
                   "fmt": rng.choice([None] + list(range(len(formats)))),
@@ -601,6 +605,9 @@ def single_calls(extended=False):
             ("store-validated-other-algo", _st(2, 1, ckalgo="sha3_256", ck="upper", add="blake2b")),
             ("store-file-stream", _st(2, 0, kind="file", off=1)),
             ("store-mem-stream", _st(2, 1, kind="mem", short=2)),
+            ("div-valid", {"op": "div", "c": 0, "ckalgo": "sha224", "ck": "ok", "size": "ok"}),
+            ("div-valid-upper", {"op": "div", "c": 0, "ckalgo": "blake2b", "ck": "upper", "size": "ok", "reuse_om": "ret"}),
+            ("div-invalid", {"op": "div", "c": 0, "ckalgo": "sha256", "ck": "wrong", "size": "ok"}),
             ("tag-missing", {"op": "tag", "pid": 2, "cid": ["x", 1]}),
             ("tag-bound", {"op": "tag", "pid": 0, "cid": ["c", 1]}),
             ("tag-upper-case-cid", {"op": "tag", "pid": 2, "cid": ["C", 0]}),
@@ -622,7 +629,7 @@ def single_header(seed=0, blksize=None, write_through=False, mp=False, csize=(5,
             "contents": [[csize[0], 3], [csize[1], 7]], "mcontents": [[6, 1], [11, 2], [3, 3]]}
 
 
-def gen_single_random(seed, engine, tier="quick"):
+def gen_single_random(seed, engine, tier="quick", only=None):
     """A random (start state, call, knobs) for the single-call engines: the start state is a
     short random history, the call is drawn from the extended menu shapes with random arguments."""
     rng = rng_for(seed)
@@ -634,6 +641,13 @@ def gen_single_random(seed, engine, tier="quick"):
                              rng.choice([1, 2, bb, 2 * bb, 5000 + rng.randrange(9000)])), cfg=cfg)
     if h["contents"][0][0] == h["contents"][1][0]:
         h["contents"][1][0] += 1
+    if rng.random() < 0.25:
+        # content shapes (zero runs at the end / start / middle, constant bytes): block-aligned sizes included
+        i = rng.randrange(2)
+        h["contents"][i] = [rng.choice([4096, 8192, 12288, 16384, 3 * bb, 20000]) or 7, h["contents"][i][1],
+                            rng.choice(["ztail", "zeros", "zhead", "zmid", "ff"])]
+        if h["contents"][0][0] == h["contents"][1][0]:
+            h["contents"][1 - i][0] += 1
     h["mcontents"] = [[rng.choice([0, 4, bb + 1]), 1], [rng.choice([1, 9, 3 * bb]), 2], [rng.choice([2, 8200]), 3]]
     setup = []
     for _ in range(rng.randint(0, 5)):
@@ -648,8 +662,14 @@ def gen_single_random(seed, engine, tier="quick"):
             setup.append({"op": "delete", "pid": rng.randrange(3)})
         else:
             setup.append({"op": "smeta", "pid": rng.randrange(3), "fmt": rng.choice([None, 0, 1]), "m": rng.randrange(3)})
-    name, call = rng.choice(single_calls(extended=True))
+    menu = single_calls(extended=True)
+    if only:
+        menu = [m for m in menu if m[0].startswith(only)]
+    name, call = rng.choice(menu)
     call = dict(call)
+    if call["op"] == "div" and rng.random() < 0.5:
+        call["c"] = rng.randrange(2)
+        call["ckalgo"] = spell(rng, rng.choice(M.ALL_ALGOS))
     if "pid" in call and call["pid"] is not None and rng.random() < 0.5:
         call["pid"] = rng.randrange(3)
     h.update({"engine": engine, "setup": setup, "call": call, "state": "random", "callname": name})
